@@ -1,29 +1,29 @@
 #!/bin/bash
-# tools/confirm_seeded.sh <ID> <n> : confirm in the scratch worktree /tmp/wt/<ID> that patch<n>.diff
+# tools/confirm_seeded.sh <ID> <n> : confirm in the scratch worktree $WTROOT/<ID> (default /tmp/wt2; stored as <ID>-<n+OFFSET>) that patch<n>.diff
 # (a) compiles, (b) passes the unedited baseline suite, (c) makes demo_<ID>_<n> fail, and that the
 # demo passes without it. On success stores it as /verif/seeded/<ID>-<n>/.
-ID="$1"; N="$2"; WT=/tmp/wt/$ID
+ID="$1"; N="$2"; WTROOT=${WTROOT:-/tmp/wt2}; OFFSET=${OFFSET:-2}; WT=$WTROOT/$ID; M=$((N+OFFSET))
 cd $WT || exit 2
 export CARGO_NET_OFFLINE=true
 git checkout -q -- src
 R=""
 git apply patch$N.diff || { echo "$ID-$N: patch does not apply"; exit 1; }
 cargo build --offline -q 2>/dev/null || R="$R nobuild"
-base=$(cargo test --workspace --no-fail-fast --offline -j 8 2>&1 | grep -E "^test result" | head -1)
+base=$(cargo test --workspace --no-fail-fast --offline -j 4 2>&1 | grep -E "^test result" | head -1)
 echo "$ID-$N baseline with patch: $base"
 echo "$base" | grep -q "36 passed; 0 failed" || R="$R baseline-fails"
-cargo test --offline --features instrumentation -j 8 --test demo_${ID}_$N > /tmp/wt/demo_${ID}_${N}_with.log 2>&1; w=$?
+cargo test --offline --features instrumentation -j 4 --test demo_${ID}_$N > $WTROOT/demo_${ID}_${N}_with.log 2>&1; w=$?
 git checkout -q -- src
-cargo test --offline --features instrumentation -j 8 --test demo_${ID}_$N > /tmp/wt/demo_${ID}_${N}_without.log 2>&1; wo=$?
+cargo test --offline --features instrumentation -j 4 --test demo_${ID}_$N > $WTROOT/demo_${ID}_${N}_without.log 2>&1; wo=$?
 echo "$ID-$N demo exit with patch=$w without=$wo"
 [ $w -ne 0 ] || R="$R demo-passes-with-patch"
 [ $wo -eq 0 ] || R="$R demo-fails-without-patch"
 if [ -z "$R" ]; then
-  D=/verif/seeded/$ID-$N; mkdir -p $D
+  D=/verif/seeded/$ID-$M; mkdir -p $D
   cp patch$N.diff $D/patch.diff
-  cp tests/demo_${ID}_$N.rs $D/ 2>/dev/null
+  cp tests/demo_${ID}_$N.rs $D/demo_${ID}_$M.rs 2>/dev/null
   cp NOTES.md $D/NOTES.agent.md
-  echo "$ID-$N CONFIRMED"
+  echo "$ID-$N CONFIRMED as $ID-$M"
 else
   echo "$ID-$N REJECTED:$R"
 fi
